@@ -421,6 +421,159 @@ async fn gc_races(rng: &mut Rng, rounds: usize, failures: &mut Vec<Value>, evalu
     (scenarios, gc_deleted)
 }
 
+/// One run of a GC-vs-writer scenario under a given schedule.  Returns (branching, trace, failure).
+async fn gc_schedule_run(kind: Kind, shape: usize, orphan: bool, choices: &[usize]) -> (Vec<usize>, Vec<String>, Option<Value>) {
+    const SHAPES: [&str; 6] = ["put-new", "put-overwrite", "copy-new", "copy-overwrite", "multipart-new", "delete"];
+    let mem = Arc::new(InMemory::new());
+    if orphan {
+        // a leftover of an earlier process under the key the writer is about to create
+        plant(&mem, &[("gen/a/b/00000000000003e8-0000000a".to_string(), vec![9, 9, 9])]).await;
+    }
+    let p = start(kind, mem.clone());
+    let base: Vec<u8> = (0..21u8).collect();
+    let newv: Vec<u8> = (100..133u8).collect();
+    p.w.os().put(&Path::from("c"), Bytes::from(base.clone()).into()).await.unwrap();
+    p.w.os().put(&Path::from("d"), Bytes::from(base.clone()).into()).await.unwrap();
+    let sched = Sched::new();
+    *p.rec.sched.lock().unwrap() = Some(sched.clone());
+    let (target, expect): (&str, Option<Vec<u8>>) = match shape {
+        0 => ("a/b", Some(newv.clone())),
+        1 => ("c", Some(newv.clone())),
+        2 => ("a/b", Some(base.clone())),
+        3 => ("d", Some(base.clone())),
+        4 => ("a/b", Some(newv.clone())),
+        _ => ("d", None),
+    };
+    let w = p.w.clone();
+    let nv = newv.clone();
+    let writer = spawn_task(&sched, 0, async move {
+        let os = w.os();
+        let t = Path::from(target);
+        let r: Result<()> = match shape {
+            0 | 1 => os.put(&t, Bytes::from(nv).into()).await.map(|_| ()),
+            2 | 3 => os.copy(&Path::from("c"), &t).await,
+            4 => match os.put_multipart(&t).await {
+                Ok(mut up) => match up.put_part(Bytes::from(nv).into()).await {
+                    Ok(()) => up.complete().await.map(|_| ()),
+                    Err(e) => Err(e),
+                },
+                Err(e) => Err(e),
+            },
+            _ => os.delete(&t).await,
+        };
+        r.map_err(|e| e.to_string())
+    });
+    // the writer has minted its generation and is parked at its first backend call; the collection starts later
+    sched.quiesce(1).await;
+    tokio::time::sleep(std::time::Duration::from_millis(2)).await;
+    let w2 = p.w.clone();
+    let gc = spawn_task(&sched, 1, async move { w2.gc().await.map_err(|e| e.to_string()) });
+    let branching = match sched.drive(2, choices).await {
+        Ok(b) => b,
+        Err(e) => return (vec![], sched.trace(), Some(json!({"class":"harness-nondeterminism","what":e}))),
+    };
+    let wres = writer.await.unwrap();
+    let gres = gc.await.unwrap();
+    *p.rec.sched.lock().unwrap() = None;
+    let trace = sched.trace();
+    let mut fail = None;
+    let mut flag = |what: &str, extra: Value| {
+        if fail.is_none() {
+            fail = Some(json!({"class":"gc-race-schedule","what":what,"wrapper":kind.name(),"writer":SHAPES[shape],"orphan_planted":orphan,
+                "schedule":trace.clone(),"detail":extra,"writer_result":format!("{wres:?}"),"gc_result":format!("{gres:?}")}));
+        }
+    };
+    if wres.is_err() || gres.is_err() {
+        flag("a writer or the collector fails when they run concurrently", json!(null));
+    }
+    // every committed key reads its committed bytes: warm (same instance) and after a cold restart
+    let mut want: BTreeMap<String, Vec<u8>> = BTreeMap::new();
+    want.insert("c".into(), base.clone());
+    want.insert("d".into(), base.clone());
+    match &expect {
+        Some(v) => {
+            want.insert(target.to_string(), v.clone());
+        }
+        None => {
+            want.remove(target);
+        }
+    }
+    let p2 = start(kind, mem.clone());
+    for (label, os) in [("warm", p.w.os()), ("cold", p2.w.os())] {
+        for k in ["a/b", "c", "d"] {
+            let got = read_key(os, k).await;
+            let exp = match want.get(k) { Some(v) => Read::Val(v.clone()), None => Read::Absent };
+            if got != exp {
+                flag("after collect_garbage ran concurrently with a writer, a committed key does not read its committed bytes",
+                     json!({"key":k,"instance":label,"read":show(&got),"expected":show(&exp)}));
+            }
+        }
+    }
+    if let Ok(listed) = p2.w.os().list(None).try_collect::<Vec<ObjectMeta>>().await {
+        for m in listed {
+            if !matches!(read_key(p2.w.os(), m.location.as_ref()).await, Read::Val(_)) {
+                flag("a listed key cannot be read after a GC race", json!({"key":m.location.to_string()}));
+            }
+        }
+    }
+    (branching, trace, fail)
+}
+
+/// All interleavings (depth-first, up to `limit` per scenario, then `samples` random ones) of the backend
+/// steps of one writer with the backend steps of collect_garbage (mark listing, per-key reads, gen/ and
+/// data/ listings, re-checks, deletes).
+async fn gc_schedules(rng: &mut Rng, limit: usize, samples: usize, failures: &mut Vec<Value>, evaluations: &mut u64) -> (u64, u64, bool) {
+    let mut schedules = 0u64;
+    let mut scenarios = 0u64;
+    let mut exhaustive = true;
+    for kind in [Kind::Meta, Kind::Enc(16)] {
+        for shape in 0..6usize {
+            for orphan in [false, true] {
+                if orphan && shape != 0 {
+                    continue;
+                }
+                scenarios += 1;
+                let mut choices: Vec<usize> = Vec::new();
+                let mut n = 0usize;
+                let mut seen_fail = false;
+                loop {
+                    let (branching, _trace, fail) = gc_schedule_run(kind, shape, orphan, &choices).await;
+                    schedules += 1;
+                    *evaluations += 1;
+                    n += 1;
+                    if let Some(f) = fail {
+                        if !seen_fail {
+                            failures.push(f);
+                        }
+                        seen_fail = true;
+                    }
+                    if !next_choices(&mut choices, &branching) {
+                        break;
+                    }
+                    if n >= limit {
+                        exhaustive = false;
+                        // random schedules for the rest of the tree
+                        for _ in 0..samples {
+                            let ch: Vec<usize> = (0..40).map(|_| rng.below(2) as usize).collect();
+                            let (_b, _t, fail) = gc_schedule_run(kind, shape, orphan, &ch).await;
+                            schedules += 1;
+                            *evaluations += 1;
+                            if let Some(f) = fail {
+                                if !seen_fail {
+                                    failures.push(f);
+                                }
+                                seen_fail = true;
+                            }
+                        }
+                        break;
+                    }
+                }
+            }
+        }
+    }
+    (scenarios, schedules, exhaustive)
+}
+
 pub fn main(args: &[String]) {
     let out_path = arg_value(args, "--out").expect("--out");
     let seqs: usize = arg_value(args, "--seqs").and_then(|s| s.parse().ok()).unwrap_or(60);
@@ -682,6 +835,8 @@ async fn run(seqs: usize, out: &mut impl std::io::Write) {
 
     let race_rounds = if seqs >= 500 { 20 } else { 3 };
     let (race_scenarios, race_deleted) = gc_races(&mut rng, race_rounds, &mut failures, &mut evaluations).await;
+    let (sched_limit, sched_samples) = if seqs >= 500 { (6000, 500) } else { (120, 80) };
+    let (sched_scenarios, sched_runs, sched_exhaustive) = gc_schedules(&mut rng, sched_limit, sched_samples, &mut failures, &mut evaluations).await;
     let oracle_failures = failures.len();
     let mut per_class: BTreeMap<String, u64> = BTreeMap::new();
     failures.retain(|f| {
@@ -691,7 +846,7 @@ async fn run(seqs: usize, out: &mut impl std::io::Write) {
     });
     let summary = json!({"kind":"summary","sequences":seqs,"crash_points":crash_points,"evaluations":evaluations,
         "model_cases":model_cases,"gc_runs_after_crash":gc_runs,"gc_deleted_after_crash":gc_deleted,
-        "legacy_migrations":legacy_migrations,"nontrivial":nontrivial,"gc_race_scenarios":race_scenarios,"gc_deleted_during_races":race_deleted,
+        "legacy_migrations":legacy_migrations,"nontrivial":nontrivial,"gc_race_scenarios":race_scenarios,"gc_schedule_scenarios":sched_scenarios,"gc_schedules":sched_runs,"gc_schedules_exhaustive":sched_exhaustive,"gc_deleted_during_races":race_deleted,
         "ops":op_hist,"wrappers":kind_hist,"interrupted":interrupted_hist,"outcomes":outcome_hist,
         "oracle_failures":oracle_failures,"failure_classes":per_class,"failures":failures});
     writeln!(out, "{summary}").unwrap();
